@@ -112,6 +112,13 @@ def run_case(case, ctx):
         d2 = d1
     cls = gen.choice(rs, CLASSES)
     M = make_matrix(rs, cls, d1, d2, dt)
+    # the same matrix in very small / very large units (not for symeig_svd, whose absolute eigenvalue floor is the known finding, and
+    # not for integer-valued classes): an SVD has no unit
+    unit = 1.0
+    if method != "symeig_svd" and cls not in ("integer",) and np.dtype(dt).kind == "f" and rs.rand() < 0.2:
+        unit = float(gen.choice(rs, [1e-18, 1e12] if np.dtype(dt) == np.float64 else [1e-9, 1e6]))
+        M = (M * np.asarray(unit, dtype=M.dtype)).astype(M.dtype)
+        ctx.count("matrices_in_extreme_units")
     mx, mn = max(d1, d2), min(d1, d2)
     n_req = gen.choice(rs, [None] + list(range(1, mx + 3)))
     flip = bool(rs.rand() < 0.8)
@@ -119,7 +126,7 @@ def run_case(case, ctx):
     nonneg = gen.choice(rs, [None, None, None, None, True, "nndsvd", "nndsvda"]) if method != "direct_truncated" else None
     seed = int(rs.randint(0, 2 ** 31 - 1))
     desc = {"method": method, "shape": [d1, d2], "class": cls, "dtype": dt, "n_eigenvecs": n_req, "flip_sign": flip,
-            "u_based": ubased, "non_negative": nonneg}
+            "u_based": ubased, "non_negative": nonneg, "unit": unit}
     ctx.count("checked/%s" % method)
     ctx.count("class/%s" % cls)
     if mn > 1:
